@@ -23,6 +23,9 @@ MC_Fns == {"sin", "abs", "asin"}
 MC_SOps == {"+", "*"}
 MC_VOps == {"+", "-", "*", "/", "**"}
 MC_Senses == {}
+MC_Stages == <<>>
+MC_FinalEn == {}
 MC_Want == {}
+MC_NoPR(o) == <<>>
 ASSUME PrintT(<<"BASE", BaseCalls, BaseHeap, AllNames>>)
 =============================================================================
